@@ -203,6 +203,16 @@ pub struct Counting {
     /// knows an upper bound, a generator knows nothing): 0 = the default `(0, None)`, 1 = exact,
     /// 2 = `(0, Some(remaining))`, 3 = `(remaining, None)`. The stream must not depend on it.
     hint: u8,
+    /// not fused: after the end (`None`) further calls yield up to 8 junk items (index n.., value -7) and only then `None`
+    /// for good. The input SEQUENCE ends at the first `None` (Iterator contract); a consumer that polls again after the end
+    /// — the defect D17 of the threaded pipe, repaired by `fuse()` — delivers junk. One case in three.
+    unfused: bool,
+    ended: bool,
+    junk: usize,
+}
+
+pub fn unfused_of(n: usize, w: usize, extra: usize) -> bool {
+    (n * 5 + w + extra) % 3 == 0
 }
 
 /// the kind of `size_hint` a case uses: a function of the case so that runs are reproducible
@@ -218,7 +228,11 @@ impl Iterator for Counting {
             self.pos += 1;
             self.pulled.fetch_add(1, Ordering::SeqCst);
             Some(r)
+        } else if self.unfused && self.ended && self.junk < 8 {
+            self.junk += 1;
+            Some((self.xs.len() + self.junk - 1, -7))
         } else {
+            self.ended = true;
             None
         }
     }
@@ -292,9 +306,9 @@ pub fn run_pipe_controlled_ext(
     let ctl = Ctl::new(false);
     ctl.install();
     let pulled = Arc::new(AtomicUsize::new(0));
-    let counts: Arc<Vec<AtomicUsize>> = Arc::new((0..n).map(|_| AtomicUsize::new(0)).collect());
+    let counts: Arc<Vec<AtomicUsize>> = Arc::new((0..n + 8).map(|_| AtomicUsize::new(0)).collect());
     let counts2 = counts.clone();
-    let upstream = Counting { xs: xs.to_vec(), pos: 0, pulled: pulled.clone(), hint: hint_of(n, w, choices.len()) };
+    let upstream = Counting { xs: xs.to_vec(), pos: 0, pulled: pulled.clone(), hint: hint_of(n, w, choices.len()), unfused: unfused_of(n, w, choices.len()), ended: false, junk: 0 };
     let pipeline: text_utils::data::Pipeline<(usize, i64), i64> = Arc::new(move |(i, x)| {
         counts2[i].fetch_add(1, Ordering::SeqCst);
         f_model(x)
@@ -455,6 +469,9 @@ pub fn run_pipe_controlled_ext(
     run.exited = (0..w).filter(|t| ctl.has_exited(*t)).count();
     run.pulled = pulled.load(Ordering::SeqCst);
     run.counts = counts.iter().map(|c| c.load(Ordering::SeqCst)).collect();
+    if run.counts[n..].iter().all(|c| *c == 0) {
+        run.counts.truncate(n); // no junk item (index >= n) was processed
+    }
     // let whatever is left run out so that no thread stays blocked in the monitor
     ctl.set_free();
     drop(pipe);
@@ -468,11 +485,11 @@ pub fn run_pipe_free(xs: &[i64], w: usize, delays: &[u64]) -> PipeRun {
     verif::install(None);
     let n = xs.len();
     let pulled = Arc::new(AtomicUsize::new(0));
-    let counts: Arc<Vec<AtomicUsize>> = Arc::new((0..n).map(|_| AtomicUsize::new(0)).collect());
+    let counts: Arc<Vec<AtomicUsize>> = Arc::new((0..n + 8).map(|_| AtomicUsize::new(0)).collect());
     let counts2 = counts.clone();
     let delays = delays.to_vec();
     let delays_t = delays.clone();
-    let upstream = Counting { xs: xs.to_vec(), pos: 0, pulled: pulled.clone(), hint: hint_of(n, w, delays.len()) };
+    let upstream = Counting { xs: xs.to_vec(), pos: 0, pulled: pulled.clone(), hint: hint_of(n, w, delays.len()), unfused: unfused_of(n, w, delays.len()), ended: false, junk: 0 };
     let pipeline: text_utils::data::Pipeline<(usize, i64), i64> = Arc::new(move |(i, x)| {
         counts2[i].fetch_add(1, Ordering::SeqCst);
         let d = if delays.is_empty() { 0 } else { delays[i % delays.len()] };
@@ -511,6 +528,9 @@ pub fn run_pipe_free(xs: &[i64], w: usize, delays: &[u64]) -> PipeRun {
     }
     run.pulled = pulled.load(Ordering::SeqCst);
     run.counts = counts.iter().map(|c| c.load(Ordering::SeqCst)).collect();
+    if run.counts[n..].iter().all(|c| *c == 0) {
+        run.counts.truncate(n); // no junk item (index >= n) was processed
+    }
     run
 }
 
